@@ -26,6 +26,8 @@ Decides:
                    test decides "single character"), so a non-ASCII replacement help short is still recognised (shared with C02).
  S sequential composition (finding)  in construct! a later field's outcome is dropped without inspection when an
                    earlier field fails, so an inner command's help output can be lost (known finding).
+ K marker          the item pre-consumed as `--` is the one at the position it was tokenized into (a word index would mark an earlier
+                   item - possibly the help flag - as consumed when a word before `--` expands into two items; shared with C09).
 Does not decide: which of several failing fields is reported for a given line."""
 import re
 from core import *
